@@ -36,6 +36,7 @@ type c06Op struct {
 type c06Scenario struct {
 	Ops    []c06Op `json:"ops"`
 	Struct bool    `json:"struct_elements"`
+	Long   bool    `json:"long_backlogs,omitempty"`
 
 	h      *Hist
 	probes map[string]int
@@ -62,6 +63,28 @@ func genC06(t *simrt.Tape, tier string) Scenario {
 	if tier == "thorough" {
 		maxN = 40
 	}
+	if t.Bool(1, 40) {
+		// long backlogs: several hundred nodes go through the free list and the allocator twice
+		// (thresholds and caps inside the node recycling are far above what short histories reach)
+		rnd := func(k int) {
+			for i := 0; i < k; i++ {
+				op := c06Op{Kind: enabled[t.Choose(len(enabled))]}
+				if op.Kind == "KeepNodePoolCount" {
+					op.N = []int{-1, 0, 1, 7, 100, 200}[t.Choose(6)]
+				}
+				sc.Ops = append(sc.Ops, op)
+			}
+		}
+		for round := 0; round < 2; round++ {
+			sc.Ops = append(sc.Ops, c06Op{Kind: "OfferBurst", N: 100 + t.Choose(120)})
+			rnd(t.Choose(3))
+			sc.Ops = append(sc.Ops, c06Op{Kind: "DrainBurst"})
+			rnd(t.Choose(3))
+		}
+		rnd(1 + t.Choose(6))
+		sc.Long = true
+		return sc
+	}
 	n := 1 + t.Choose(6)
 	if t.Bool(1, 2) {
 		n = 1 + t.Choose(maxN)
@@ -81,7 +104,7 @@ func genC06(t *simrt.Tape, tier string) Scenario {
 
 func (sc *c06Scenario) Describe() interface{} { return sc }
 func (sc *c06Scenario) Config() simrt.Config {
-	return simrt.Config{Horizon: time.Hour, MaxSteps: 100000, MaxYields: 300000, NoStall: true}
+	return simrt.Config{Horizon: time.Hour, MaxSteps: 100000, MaxYields: 3000000, NoStall: true}
 }
 func (sc *c06Scenario) Probes() map[string]int { return sc.probes }
 func (sc *c06Scenario) Nontrivial(res *simrt.Result) bool {
@@ -277,6 +300,25 @@ func (sc *c06Scenario) Run(s *simrt.Sim) {
 			}
 		case "Poll", "Take", "Shift", "Pop":
 			ok = remove(o.Kind)
+		case "OfferBurst":
+			for i := 0; i < o.N && ok; i++ {
+				v := next
+				next++
+				op := h.Do("t", "Offer", v, func() (interface{}, error) { return nil, d.Add("Offer", v) })
+				if op.Panic != "" || op.Err != nil {
+					if op.Err != nil {
+						fail("insert", "Offer-error", op.String())
+					}
+					ok = false
+					break
+				}
+				model = append(model, v)
+			}
+			sc.probes["long-backlog"]++
+		case "DrainBurst":
+			for len(model) > 0 && ok {
+				ok = remove("Poll")
+			}
 		case "Peek", "Count":
 			// covered by observe
 		case "Clear":
@@ -327,7 +369,7 @@ func (sc *c06Scenario) Signature(res *simrt.Result) string {
 }
 
 func nStr(o c06Op) string {
-	if o.Kind == "KeepNodePoolCount" {
+	if o.Kind == "KeepNodePoolCount" || o.Kind == "OfferBurst" {
 		return fmt.Sprintf("(%d)", o.N)
 	}
 	return ""
